@@ -79,6 +79,11 @@ def do_check(prop: str, tier: str, seed: int, only, keep: bool) -> int:
             unit_infos[unit.name] = info
             rewrites += info.get("rewrites", [])
             hmap = {h.name: h for h in unit.harnesses}
+            expected = [h.name for h in unit.harnesses if tier in h.tiers and (not only or h.name in only)
+                        and not (tier == "quick" and h.quick_seed_slot is not None and seed % h.quick_seed_slot[1] != h.quick_seed_slot[0])]
+            for nm in expected:
+                if nm not in results:
+                    inconclusive.append(f"{nm}: no result returned by the runner")
             for name, r in results.items():
                 h = hmap[name]
                 n_queries += 1
@@ -216,14 +221,19 @@ def replay_violation(prop, spec, v, workroot):
         gen_dir = v["gen_dir"]
         crate_dir = gen_dir / unit.crate_subdir
         try:
-            cp = core.concrete_playback(unit, crate_dir, hname, workroot)
-            rp["tests"] = cp["tests"]
-            hfile = v["info"].get("harness_file")
-            if v["harness"].playback and cp["tests"] and hfile:
-                ok, detail = core.native_playback(unit, gen_dir, Path(hfile), cp["tests"])
-                rp["reproduced"], rp["detail"] = ok, detail
+            do_pb = v["harness"].playback and unit.playback
+            if do_pb or v["harness"].want_values:
+                cp = core.concrete_playback(unit, crate_dir, hname, workroot)
+                rp["tests"] = cp["tests"]
+                rp["concrete_vals"] = cp.get("concrete_vals", [])
+                hfile = v["info"].get("harness_file")
+                if do_pb and cp["tests"] and hfile:
+                    ok, detail = core.native_playback(unit, gen_dir, Path(hfile), cp["tests"])
+                    rp["reproduced"], rp["detail"] = ok, detail
+                else:
+                    rp["detail"] = cp["detail"] or "harness uses environment stubs; kani playback not applicable"
             else:
-                rp["detail"] = cp["detail"] or "harness uses environment stubs; kani playback not applicable"
+                rp["detail"] = "harness uses environment stubs; kani playback not applicable"
         except Exception as e:  # replay machinery failure is not a verdict
             rp["detail"] = f"playback machinery error: {e}"
         if spec.native_replay is not None and rp["reproduced"] is not True:
